@@ -166,6 +166,7 @@ func shrinkTape(p *Prop, tier string, tape []uint32, class, key string, budget t
 }
 
 func shrinkMain(fs *flag.FlagSet, args []string) {
+	manualGC()
 	in := fs.String("in", "", "")
 	out := fs.String("out", "", "")
 	secs := fs.Int("secs", 60, "")
@@ -224,6 +225,7 @@ func fillReplay(p *Prop, rf *ReplayFile) {
 // replay: exit 1 + VIOLATION line when the recorded class reproduces, 0 when
 // the run is clean, 2 on trouble.
 func replayMain(fs *flag.FlagSet, args []string) {
+	manualGC()
 	file := fs.String("file", "", "")
 	quiet := fs.Bool("quiet", false, "")
 	record := fs.String("recordprelude", "", "write the replay file with regenerated prelude tapes here")
